@@ -154,11 +154,11 @@ def run(ctx):
                 binary = vlib.ELKH + "-race"
             stress(ctx, binary, s["goroutines"], s["ops"], s["names"], s["seed"], s.get("race", False))
         return
-    lines = vlib.corpus_lines("C26") + [gen_line(ctx.rng, ctx) for _ in range(ctx.n(2000, 60000))]
+    lines = vlib.corpus_lines("C26") + [gen_line(ctx.rng, ctx) for _ in range(ctx.n(2000, 30000))]
     vlib.correspond(ctx, lines, oracle=oracle, minimise=minimise, label="SymbolTable")
     ok = True
     configs = [(2, 200, 6), (8, 120, 12), (64, 40, 24), (8, 300, 3), (32, 60, 40)]
-    runs = ctx.n(20, 120)
+    runs = ctx.n(20, 60)
     for k in range(runs):
         g, n, names = configs[k % len(configs)]
         ok &= stress(ctx, vlib.ELKH, g, n, names, ctx.seed * 100000 + k, False)
@@ -169,7 +169,7 @@ def run(ctx):
             ctx.obligation("go build -race of the harness", False, "build", log[-600:])
         else:
             okr = True
-            for k in range(80):
+            for k in range(40):
                 g, n, names = configs[k % len(configs)]
                 okr &= stress(ctx, vlib.ELKH + "-race", g, n, names, ctx.seed * 100000 + 5000 + k, True)
-            ctx.obligation("stress under the race detector: no data race reported, okSym accepts (80 runs)", okr, "race")
+            ctx.obligation("stress under the race detector: no data race reported, okSym accepts (40 runs)", okr, "race")
